@@ -82,15 +82,24 @@ def check_field(v, s, name, i, val):
 
 def check_component(v, D, j, cname, k, sname, val, via):
     """component j (and sub-component k) of complex datatype D, reached through `via`:
-       'zfield'  : Field('ZZZ_1', datatype=D)
+       'zfield'  : Field('ZZZ_1', datatype=D); 'unnamed': Field(datatype=D); 'varies-field': Field('OBX_5', datatype=D);
+       'setter'  : Field('OBX_5').datatype = D
        'comp'    : Component(cname) (k only)"""
     Segment, Field, Component, SubComponent, P = _imports()
     out = []
     exp = '^' * (j - 1) + ('&' * (k - 1) if k else '') + val
     sig = 'component-position:%s:%s' % (v, D)
     try:
-        if via == 'zfield':
-            f = Field('ZZZ_1', datatype=D, version=v, validation_level=TOL)
+        if via in ('zfield', 'unnamed', 'varies-field', 'setter'):
+            if via == 'zfield':
+                f = Field('ZZZ_1', datatype=D, version=v, validation_level=TOL)
+            elif via == 'unnamed':
+                f = Field(datatype=D, version=v, validation_level=TOL)          # a field without a name, of that datatype
+            elif via == 'varies-field':
+                f = Field('OBX_5', datatype=D, version=v, validation_level=TOL)  # a field of varying type given its datatype
+            else:
+                f = Field('OBX_5', version=v, validation_level=TOL)
+                f.datatype = D                                                    # ... or given it afterwards
             if k:
                 setattr(getattr(f, cname), sname, val)
             else:
@@ -347,6 +356,9 @@ def _run_shard(shard, acc):
                     val = lit.valid(lit.first_leaf_dt(T, v, cref), n)
                     _do(acc, {'kind': 'component', 'v': v, 'D': D, 'j': j, 'cname': cname, 'k': 0, 'sname': None,
                               'val': val, 'via': 'zfield'}, j > 1)
+                    if n == 0:
+                        _do(acc, {'kind': 'component', 'v': v, 'D': D, 'j': j, 'cname': cname, 'k': 0, 'sname': None,
+                                  'val': val, 'via': ('unnamed', 'varies-field', 'setter')[j % 3]}, j > 1)
                 if sub:
                     for (sname, k, sref, scard) in sub:
                         val = lit.valid(lit.first_leaf_dt(T, v, sref), 0)
